@@ -82,7 +82,20 @@ class Req(pg.Object):
   n: T.Any() = None
 
 
-CLASSES = {c.__name__: c for c in (P, Q, R, W, NC, Typed, Req, HT, HDoc)}
+class SD(pg.Object):
+  """Sealed by default (instances can be unsealed explicitly with seal(False))."""
+  allow_symbolic_mutation = False
+  x: T.Any() = None
+  y: T.Any() = None
+
+
+class DK(pg.Object):
+  """Dict-typed fields whose keys are not fixed by the schema (any key / any str key)."""
+  m: T.Dict() = {}
+  s: T.Dict([(T.StrKey(), T.Any())]) = {}
+
+
+CLASSES = {c.__name__: c for c in (P, Q, R, W, NC, Typed, Req, HT, HDoc, DK, SD)}
 UNTYPED = ('P', 'Q', 'R', 'W')
 FIELDS = {'P': ('x', 'y'), 'Q': ('x', 'y'), 'R': ('x', 'y', 'z'), 'W': ('a', 'b'),
-          'NC': ('x', 'y'), 'HDoc': ('x', 'y'), 'Typed': ('i', 's', 'e', 'l', 'd', 't', 'o', 'u'), 'Req': ('r', 'n')}
+          'NC': ('x', 'y'), 'HDoc': ('x', 'y'), 'Typed': ('i', 's', 'e', 'l', 'd', 't', 'o', 'u'), 'Req': ('r', 'n'), 'DK': ('m', 's'), 'SD': ('x', 'y')}
